@@ -96,4 +96,13 @@ class HH(Channel):
 
 
 def _vtrap(x, y):
-    return x / (save_exp(x / y) - 1.0)
+    """Return `x / (exp(x / y) - 1)`, which is `y` in the limit `x -> 0`."""
+    z = x / y
+    # `expm1` avoids the cancellation in `exp(z) - 1` for small `z`. At `z = 0` the
+    # expression is 0/0, so we use its Taylor expansion there (double `where` such
+    # that gradients are also finite).
+    is_small = jnp.abs(z) < 1e-8
+    z_safe = jnp.where(is_small, 1.0, z)
+    return jnp.where(
+        is_small, y * (1.0 - z / 2.0), x / jnp.expm1(jnp.minimum(z_safe, 20.0))
+    )
